@@ -28,7 +28,7 @@ vars == << l, objs, limit, ndiag, nunspec >>
 Slots == 1..8
 Absent == Obj(FALSE, FALSE, [EmptyUrl EXCEPT !.scheme = << -3 >>])
 
-Emit(rec) == PrintT("@@DIAG " \o ToJson(rec))
+Emit(rec) == PrintT("@@DIAG " \o ToJson(rec @@ [lim |-> limit]))
 
 IsSame(o) == "same" \in DOMAIN o
 
@@ -49,20 +49,42 @@ CheckOne(who, expObj, o) ==
                         diff |-> [f \in mf |-> [exp |-> exp[f], got |-> o[f]]]])
                THEN 1 ELSE 1
 
-\* invariants evaluated on the OBSERVED values themselves (C07, C19, C05)
+\* invariants evaluated on the OBSERVED values themselves (C07, C19, C05, C17)
 CheckSelf(who, o) ==
-  IF IsSame(o) \/ ~o.v THEN 0
+  IF IsSame(o) THEN 0
+  ELSE IF ~o.v THEN
+    \* a C handle holding a failed parse: every getter empty, every predicate false,
+    \* components NULL, type codes 0, setters false, still invalid, copy invalid
+    (IF "inv" \in DOMAIN o /\ (\E i \in 1..Len(o.inv) : o.inv[i] # 0)
+     THEN (IF Emit([l |-> l, who |-> who, kind |-> "cinvalid", inv |-> o.inv]) THEN 1 ELSE 1)
+     ELSE 0)
   ELSE LET part == PartitionOk(o)
            rinv == ObsRecordInv(o)
            cs   == HrefCharsetOk(RecOf(o)) /\ Serialize(RecOf(o)) = o.href
-       IN IF part /\ rinv /\ cs THEN 0
+           val  == IF "validate" \in DOMAIN o THEN o.validate ELSE TRUE
+       IN IF part /\ rinv /\ cs /\ val THEN 0
           ELSE IF Emit([l |-> l, who |-> who, kind |-> "self", partition |-> part,
-                        recordinv |-> rinv, charset |-> cs, href |-> o.href, comps |-> o.comps])
+                        recordinv |-> rinv, charset |-> cs, validate |-> val,
+                        href |-> o.href, comps |-> o.comps])
+               THEN 1 ELSE 1
+
+\* C04 / C17 directly: the three representations agree with each other, whatever
+\* the specification says (also outside the specified domain)
+CheckAgree(who, kind, oa, ox) ==
+  IF IsSame(ox) THEN 0
+  ELSE IF oa.v # ox.v THEN
+    (IF Emit([l |-> l, who |-> who, kind |-> kind, diff |-> [valid |-> [exp |-> oa.v, got |-> ox.v]]]) THEN 1 ELSE 1)
+  ELSE IF ~oa.v THEN 0
+  ELSE LET mf == {f \in ObsFields : oa[f] # ox[f]}
+       IN IF mf = {} THEN 0
+          ELSE IF Emit([l |-> l, who |-> who, kind |-> kind,
+                        diff |-> [f \in mf |-> [exp |-> oa[f], got |-> ox[f]]]])
                THEN 1 ELSE 1
 
 CheckAll(expObj, e) ==
   CheckOne("a", expObj, e.oa) + CheckOne("u", expObj, e.ou) + CheckOne("c", expObj, e.oc)
   + CheckSelf("a", e.oa) + CheckSelf("u", e.ou) + CheckSelf("c", e.oc)
+  + CheckAgree("u", "differ", e.oa, e.ou) + CheckAgree("c", "cdiffer", e.oa, e.oc)
 
 \* the object denoted by an observation (re-synchronisation)
 ObjOf(o) == IF o.v THEN ValidObj(RecOf(o)) ELSE InvalidObj
@@ -165,7 +187,7 @@ TReparse ==
   /\ IsEvent("reparse")
   /\ LET old == objs[Ev.o]
          \* the Standard's theorem, evaluated by the spec on this very record
-         thm == IF ~old.valid THEN TRUE
+         thm == IF ~old.valid \/ ~RecordInv(old.url) THEN TRUE
                 ELSE LET r == BasicParse(Serialize(old.url), NoBase)
                      IN r.res = "unspec" \/ (r.res = "ok" /\ Canon(r.url) = Canon(old.url))
          d == CheckAll(old, Ev)
